@@ -158,12 +158,22 @@ def gen_plan(rng, lib_ids, families, tier):
     (it only depends on which sessions still have steps) and is recorded explicitly."""
     k = rng.choices([2, 3, 4], weights=[5, 3, 1])[0]
     picks = []
+    def group(fam):
+        return "-".join(fam.split("-")[:2])
+
     for _ in range(k):
-        if picks and rng.random() < 0.2:
+        r = rng.random()
+        if picks and r < 0.15:
             picks.append(rng.choice(picks))  # the same description twice
+            continue
+        if picks and r < 0.6:
+            # a relative of the first session: same kind of network, different details - the
+            # pairs most likely to collide on shared state
+            rel = [f for f in families if group(f) == group(lib_ids[picks[0]])]
+            fam = rng.choice(rel)
         else:
             fam = rng.choice(families)
-            picks.append(rng.choice([i for i in lib_ids if lib_ids[i] == fam]))
+        picks.append(rng.choice([i for i in sorted(lib_ids) if lib_ids[i] == fam]))
     kinds = {f: rng.random() < 0.5 for f in ("victim-open-fail", "victim-render-enospc", "aggressor-abort", "foreign", "clock")}
     return {"sessions": picks, "kinds": kinds, "burst": rng.choice([0.0, 0.4, 0.8]), "clock_start_days": rng.randrange(0, 700)}
 
@@ -272,10 +282,22 @@ def execute(plan_or_trace, lib_by_id, refs, rundir, rng=None, neutralise=None):
             try:
                 s.step()
                 raise K.HarnessError("armed open-fail did not fire")
-            except OSError:
-                stats["faults"]["open-fail"] = stats["faults"].get("open-fail", 0) + 1
-                log.add("open-fail", i, s.pc)
-            continue  # the step is retried later by the scheduler (pc unchanged)
+            except OSError as e:
+                if seams.PLAN.fired and seams.PLAN.fired[-1][0] == "open-fail" and "simulated" in str(e):
+                    stats["faults"]["open-fail"] = stats["faults"].get("open-fail", 0) + 1
+                    log.add("open-fail", i, s.pc)
+                    seams.PLAN.clear()
+                    continue  # the step is retried later by the scheduler (pc unchanged)
+                seams.PLAN.clear()
+                violation = step_exception(s, i, st, e, refs, log, is_render)
+            except K.HarnessError:
+                raise
+            except Exception as e:
+                seams.PLAN.clear()
+                violation = step_exception(s, i, st, e, refs, log, is_render)
+            if violation and violation != "expected":
+                break
+            continue
         if fault == "render-enospc" and is_render:
             seams.PLAN.arm(kind="write-enospc", match=os.sep, mode="w", nth=ev.get("nth", 1), limit=ev.get("limit", 0))
             try:
@@ -284,12 +306,25 @@ def execute(plan_or_trace, lib_by_id, refs, rundir, rng=None, neutralise=None):
                 # fewer files than nth: nothing fired, the render simply succeeded
                 res = s.results[-1]
                 fired = False
-            except OSError:
-                fired = True
+            except OSError as e:
                 seams.PLAN.clear()
-                stats["faults"]["render-enospc"] = stats["faults"].get("render-enospc", 0) + 1
-                log.add("render-enospc", i, s.pc)
-                continue  # retried later
+                if "simulated" in str(e):
+                    stats["faults"]["render-enospc"] = stats["faults"].get("render-enospc", 0) + 1
+                    log.add("render-enospc", i, s.pc)
+                    continue  # retried later
+                violation = step_exception(s, i, st, e, refs, log, is_render)
+                if violation and violation != "expected":
+                    break
+                continue
+            except K.HarnessError:
+                raise
+            except Exception as e:
+                seams.PLAN.clear()
+                violation = step_exception(s, i, st, e, refs, log, is_render)
+                if violation and violation != "expected":
+                    break
+                violation = None
+                continue
             # fallthrough: compare as a normal render
             ev = dict(ev, fault=None)
             violation = compare_render(s, i, refs, stats, [sessions[j].desc["family"] for j in sorted(stepped) if j != i], log)
@@ -302,20 +337,10 @@ def execute(plan_or_trace, lib_by_id, refs, rundir, rng=None, neutralise=None):
         except K.HarnessError:
             raise
         except Exception as e:
-            ref = refs[s.desc["id"]][REF_HASHSEEDS[0]]
-            if is_render:
-                s.skip_failed_render(e)
-                k = s.nrender - 1
-                exp = ref["renders"][k] if k < len(ref["renders"]) else {}
-                if "exc" in exp and exp["exc"] == type(e).__name__:
-                    log.add("render-exc", i, k)
-                    continue
-                violation = {"clause": "render-raised-only-with-neighbours", "session": i, "desc": s.desc["id"], "render": k,
-                             "detail": f"{st['s']} raised {type(e).__name__}: {str(e)[:300]} but the solo reference rendered fine"}
-            else:
-                violation = {"clause": "step-raised-only-with-neighbours", "session": i, "desc": s.desc["id"], "render": None,
-                             "detail": f"step {s.pc} {st['s']} raised {type(e).__name__}: {str(e)[:300]} but not in the solo reference\n"
-                                       + "".join(traceback.format_exc().splitlines(True)[-3:])}
+            violation = step_exception(s, i, st, e, refs, log, is_render)
+            if violation == "expected":
+                violation = None
+                continue
             break
         log.add("step", i, s.pc, kind2)
         if kind2 == "render":
@@ -343,6 +368,29 @@ def _execute_child(plan_or_trace, lib_by_id, refs, rundir, rng, neutralise):
     r = execute(plan_or_trace, lib_by_id, refs, rundir, rng=rng, neutralise=(neutralise[0], fn) if neutralise else None)
     r["stats"]["pairs"] = [list(p) for p in r["stats"]["pairs"]]
     return r
+
+
+def step_exception(s, i, st, e, refs, log, is_render):
+    """A session step raised (and it was not an injected fault). Returns a violation dict, or
+    "expected" when the solo reference raised the same way at the same render."""
+    from . import c17_session as _cs
+
+    if K.raised_in_harness(e) and not isinstance(e, _cs.StepFailed):
+        raise K.HarnessError(f"simulator code failed in step {st['s']}: {type(e).__name__}: {e}\n"
+                             + "".join(traceback.format_exception(type(e), e, e.__traceback__)))
+    ref = refs[s.desc["id"]][REF_HASHSEEDS[0]]
+    tail = "".join(traceback.format_exception(type(e), e, e.__traceback__)[-3:])
+    if is_render:
+        s.skip_failed_render(e)
+        k = s.nrender - 1
+        exp = ref["renders"][k] if k < len(ref["renders"]) else {}
+        if "exc" in exp and exp["exc"] == type(e).__name__:
+            log.add("render-exc", i, k)
+            return "expected"
+        return {"clause": "render-raised-only-with-neighbours", "session": i, "desc": s.desc["id"], "render": k,
+                "detail": f"{st['s']} raised {type(e).__name__}: {str(e)[:300]} but the solo reference rendered fine"}
+    return {"clause": "step-raised-only-with-neighbours", "session": i, "desc": s.desc["id"], "render": None,
+            "detail": f"step {s.pc} {st['s']} raised {type(e).__name__}: {str(e)[:300]} but not in the solo reference\n{tail}"}
 
 
 def compare_render(s, i, refs, stats, rendered_by, log):
